@@ -31,12 +31,12 @@ pub const SUBS: &[SubDef] = &[
 ];
 
 fn run(ctx: &Ctx) {
-    ctx.run_tape("dh", dh, ctx.pick(4_000, 200_000), 128);
-    ctx.run_tape("ec", ec, ctx.pick(6_000, 300_000), 256);
+    ctx.run_tape("dh", dh, ctx.pick(60_000, 200_000), 128);
+    ctx.run_tape("ec", ec, ctx.pick(90_000, 300_000), 256);
     let cases = (0..256u32).map(|c| vec![0u8, c as u8, 0]).chain((0..=65535u32).map(|g| vec![1u8, (g >> 8) as u8, g as u8]));
     ctx.run_enum("curve_types", curve_types, true, "all 256 curve-type bytes (named and explicit bodies) and all 65536 named groups", cases);
-    ctx.run_tape("signed", signed, ctx.pick(6_000, 300_000), 128);
-    ctx.run_tape("content_and_signature", content_and_signature, ctx.pick(8_000, 400_000), 300);
+    ctx.run_tape("signed", signed, ctx.pick(90_000, 300_000), 128);
+    ctx.run_tape("content_and_signature", content_and_signature, ctx.pick(120_000, 400_000), 300);
 }
 
 fn tail(t: &mut Tape) -> Vec<u8> {
